@@ -182,6 +182,20 @@ class Operation:
                     out.extend(o.walk())
         return out
 
+    def detach_region(self, region):
+        k = 0
+        for r in self.regions:
+            if r is region:
+                del self.regions[k]
+                region.parent = None
+                return region
+            k += 1
+        return region
+
+    @property
+    def successors(self):
+        return []
+
     def get_toplevel_object(self):
         o = self
         while o.parent_op() is not None:
@@ -284,6 +298,13 @@ class Region:
 
     def parent_op(self):
         return self.parent
+
+    def clone(self):
+        """structure-only copy: a new region object holding the same blocks (ops are not duplicated)"""
+        r = Region([])
+        r.blocks = list(self.blocks)
+        r.cloned_from = self
+        return r
 
     def walk(self, reverse=False):
         out = []
